@@ -60,6 +60,10 @@ def generate(rng, i, tier):
         if rng.random() < 0.1:
             modes["run-mode"] = "no-run"
         m = gen.gen_member(rng, hdr, len(rows), ident, modes=modes, zoo_p=0.3, zoo_pool=gen.ZOO_SAFE)
+        if rng.random() < 0.2:
+            # cross-path signals: what they mean is not this property's business, only that memory and disk agree afterwards
+            sig = rng.choice(["fail_all()", "stop_all()", "skip_all()", "advance_all(1)", "fail_all()"])
+            m["comps"].insert(rng.randint(0, len(m["comps"])), f"{gen.cond(rng, hdr, len(rows))} -> {sig}")
         members.append(m)
     nruns = 1 if rng.random() < 0.6 else 2
     runs = []
@@ -128,7 +132,7 @@ def render_printouts(po):
     return s
 
 
-def check_run_archive(out, cs, group, members, where, *, collecting, caller_lines=None, facts=None):
+def check_run_archive(out, cs, group, members, where, *, collecting, caller_lines=None, facts=None, allow_unstarted=False):
     """The whole C09 reader for the run that just returned on `cs`.  Returns the
     run directory."""
     facts = facts or {}
@@ -144,10 +148,17 @@ def check_run_archive(out, cs, group, members, where, *, collecting, caller_line
     if man.get("status") != "complete":
         out.v("status_not_complete", f"{where}: run manifest status is {man.get('status')!r} after the run returned", **facts)
     want_dirs = sorted(expected_name(m, i) for i, m in enumerate(members))
-    if sorted(run["members"]) != want_dirs:
-        out.v("member_dirs", f"{where}: member directories {sorted(run['members'])} != one per member named by identity or index {want_dirs}", **facts)
-    if len(rs) != len(members):
-        out.v("results_count", f"{where}: {len(rs)} in-memory results for {len(members)} members", **facts)
+    if allow_unstarted:
+        # a stop_all() in a serial generator run legitimately keeps later members from starting:
+        # the directories must then be exactly those of the members that have a result
+        started = sorted(r.identity_or_index for r in rs)
+        if sorted(run["members"]) != started or not set(started) <= set(want_dirs):
+            out.v("member_dirs", f"{where}: member directories {sorted(run['members'])} != one per started member {started} (members {want_dirs})", **facts)
+    else:
+        if sorted(run["members"]) != want_dirs:
+            out.v("member_dirs", f"{where}: member directories {sorted(run['members'])} != one per member named by identity or index {want_dirs}", **facts)
+        if len(rs) != len(members):
+            out.v("results_count", f"{where}: {len(rs)} in-memory results for {len(members)} members", **facts)
     all_valid, all_completed, err_total = True, True, 0
     kinds = set()
     for i, r in enumerate(rs):
@@ -279,7 +290,10 @@ def execute(sc):
                     return out.done()
                 raise
             out.runs += 1
-            run_dir, kinds = check_run_archive(out, cs, "g", sc["members"], where, collecting=meth in ops.COLLECTING, facts={"method": meth, "run": ri, "inst": run["inst"]})
+            run_dir, kinds = check_run_archive(
+                out, cs, "g", sc["members"], where, collecting=meth in ops.COLLECTING, facts={"method": meth, "run": ri, "inst": run["inst"]},
+                allow_unstarted=any("stop_all()" in c for m in sc["members"] for c in m["comps"]),
+            )
             checked_dirs.append(run_dir)
             rs = ops.results_of(cs, "g")
             term = sorted({("stopped" if r.csvpath.stopped and not r.csvpath.completed else "exhausted") + ("" if r.csvpath.is_valid else "+failed") for r in rs})
@@ -292,6 +306,7 @@ def execute(sc):
             if out.violations:
                 break
         out.probe("run after an abandoned generator run on the same instance", False)
+        out.probe("member using a cross-path signal (fail_all/stop_all/skip_all/advance_all)", any("_all(" in c for m in sc["members"] for c in m["comps"]))
         out.probe("member with run-mode: no-run", any((m.get("modes") or {}).get("run-mode") == "no-run" for m in sc["members"]))
         out.log("tree", _digest_tree(checked_dirs))
     return out.done()
